@@ -16,8 +16,10 @@ RULE = (
     "reply to a cancelled request, a split frame or a drop with mixed requests; distinct = distinct trace."
     ' A response callback may close the broker client from inside the delivery (the model learns of the close at that instant; close() must not raise there, every other pending request fails, nothing hangs).'
     ' Correlation ids cover the whole int32 range (first ids 1, 7, 2^31-3, -3, -2^31; the counter wraps like an int32).'
+    " Replies may be coalesced into one chunk (op merge, script 'coalesced': three requests answered in any order in one or two chunks, the first one's callback may close the client between two frames of a chunk); an owner's errback may cancel another pending request (also while close() is failing them); a cancelled request's id may be used again before its late reply arrives (script 'latereply')."
 )
 ASSUMPTIONS = [
+    "an exception that escapes the broker client's dataReceived / connectionLost / timer callbacks into the (simulated) reactor counts as a violation: a reactor logs it and the rest of that event's handling is lost; none occurs on the unchanged tree",
     "frames shorter than 4 bytes are not generated (the property gives them no meaning)",
     "identity of a response is its correlation id, as the property states; reuse of the id of a cancelled-but-unanswered request is not generated (behaviour unspecified)",
 ]
